@@ -114,7 +114,7 @@ func main() {
 	child.Register("cases", runCases)
 	child.Main()
 	r := ev.Start("C03", "exploration")
-	r.SetRule("executions of real rings (memory in all tiers; AOF and SQLite for a third of the cases, <= 8 nodes) with 2-4 single-writer clients issuing Put(unique value)/Delete/PrefixAppend/PrefixRemove/Get/PrefixContains/PrefixList through random entry nodes (re-picked on every retry) while 1-3 goroutines join and leave nodes; seeded delays at the chord hook points; distinct+non-trivial = hash of the interleaving of membership hook events across nodes, and separately the set of kinds of membership operations whose windows overlapped ({join,leave} x {join,leave} x ring distance adjacent / one node between / farther, with or without a failed attempt), for executions with at least one completed join/leave and one acknowledged write; a fifth of the executions store 220-520 write-once ballast keys before the churn and read each back after quiescence")
+	r.SetRule("executions of real rings (memory in all tiers; AOF and SQLite for a third of the cases, <= 8 nodes) with 2-4 single-writer clients issuing Put(unique value)/Delete/PrefixAppend/PrefixRemove/Get/PrefixContains/PrefixList through random entry nodes (re-picked on every retry) while 1-3 goroutines join and leave nodes; seeded delays at the chord hook points; distinct+non-trivial = hash of the interleaving of membership hook events across nodes, and separately the set of kinds of membership operations whose windows overlapped ({join,leave} x {join,leave} x ring distance adjacent / one node between / farther, with or without a failed attempt), for executions with at least one completed join/leave and one acknowledged write; a fifth of the executions store 220-520 (a tenth: 2600-3400, on a ring of at most 2 nodes) write-once ballast keys before the churn and read each back after quiescence")
 	r.Assume("each key has a single sequential writer, so the model of acknowledged state is deterministic; an operation is retried until acknowledged")
 	r.Assume("whether a key holding no data is still listed by a raw store is not judged")
 	rng := r.Rand("cases")
@@ -149,6 +149,12 @@ func main() {
 		}
 		if i%5 == 4 && !c.RealRPC {
 			c.Ballast = 220 + (i*53)%300 // acknowledged once before the churn, every hand-over moves hundreds of keys
+		}
+		if i%10 == 9 && !c.RealRPC {
+			// a small ring holding thousands of keys: a node that leaves hands over more than 1024 at once
+			c.Ballast = 2600 + (i*53)%800
+			c.MaxNodes = 2
+			c.Initial = 1
 		}
 		if i%4 == 0 && !c.RealRPC {
 			c.Straggler = true // one step in twelve of Notify / stabilize stalls for 20-40 ms
